@@ -16,7 +16,7 @@ mod corpus;
 use corpus::{char_offsets, clip, gen_printed, layout, mutate, random_style, stable_site, Pool, Reply, Style, EXT_SEEDS, MB, SWEEP_SEEDS};
 use kvcore::{hash_str, json, Ctx, Rng, Spec, Value};
 
-const RULE: &str = "Each case = one request text (generated SELECT / six update forms / legacy aliases printed with random layout and term spellings; mutations of those and of the extension seeds; hand-written hostile requests; syntax errors whose reported slice is not a suffix of the input followed by multi-byte text; multi-byte characters at every offset; deep nesting) x one database state of {empty, small, named+empty graphs, cached statistics, stored prefixes} x the entry points execute_sparql_query, HTTP GET / POST query adapters, execute_sparql_update, SparqlDatabase::execute_update, handle_update, HTTP update adapters and the legacy volcano entry point; the database is snapshotted before and after every call inside the worker. Non-trivial = a request that reached a query entry point on a non-empty database and is an update operation, a SELECT, or a malformed text whose error lies past offset 0; distinct by hash of (state, api, text).";
+const RULE: &str = "Each case = one request text (generated SELECT / six update forms / legacy aliases printed with random layout and term spellings; mutations of those and of the extension seeds; hand-written hostile requests; syntax errors whose reported slice is not a suffix of the input followed by multi-byte text; multi-byte characters at every offset, among them characters whose case mapping changes their UTF-8 length; deep nesting) x one database state of {empty, small, named+empty graphs, cached statistics, stored prefixes} x the entry points execute_sparql_query, HTTP GET / POST query adapters, execute_sparql_update, SparqlDatabase::execute_update, handle_update, HTTP update adapters and the legacy volcano entry point; the database is snapshotted before and after every call inside the worker. Non-trivial = a request that reached a query entry point on a non-empty database and is an update operation, a SELECT, or a malformed text whose error lies past offset 0; distinct by hash of (state, api, text).";
 
 const QUERY_APIS: [&str; 4] = ["query", "http_get", "http_post_query", "http_post_form_query"];
 const STATES: [&str; 5] = ["empty", "small", "graphs", "stats", "prefixes"];
@@ -390,6 +390,8 @@ fn phase_error_offsets(ctx: &mut Ctx, pool: &mut Pool, total: u64, frac: f64) {
         for _ in 0..r.range(1, 4) {
             tail.push_str(*r.pick(&MB));
         }
+        // characters whose lower-/upper-case form has another UTF-8 length, before the error position
+        let text = if r.chance(1, 3) { format!("# {}\n{}", ["\u{212A}\u{212A}\u{212A}", "\u{0130}\u{023A}", "\u{212A}\u{023A}\u{023A}\u{023A}"][r.below(3)], text) } else { text };
         let text = format!("{}{}", text.trim_end(), tail);
         ctx.count("error_offset_requests", 1);
         drive(ctx, pool, &mut r, &text, &state, "error_slice_not_a_suffix", false);
@@ -411,7 +413,8 @@ fn phase_everyoffset(ctx: &mut Ctx, pool: &mut Pool, total: u64, frac: f64) {
             if !ctx.time_left() {
                 break;
             }
-            for ins in ["é", "€", "😀"] {
+            // the last three change their UTF-8 length under to_lowercase / to_uppercase (3->1, 2->3, 2->3 bytes)
+            for ins in ["é", "€", "😀", "\u{212A}", "\u{0130}", "\u{023A}"] {
                 let text = format!("{}{}{}", &seed[..i], ins, &seed[i..]);
                 let strict = classify(pool, "combined", &text);
                 let rq = Req { text: &text, state: state.clone(), alias: strict.clone(), strict, origin: "multibyte_at_every_offset", ext: vec![] };
